@@ -44,6 +44,8 @@ def alpha_for(T):
         a.append(["senderr", e])
     a.append(["nowerr", errno.ECONNREFUSED, 1.2 * T])      # error while idle (matters with keep-alive)
     a.append(["nowerr", errno.EHOSTUNREACH, 0.0])
+    a.append(["nowexc", 4, 1.2 * T])       # a late exception frame for an already completed request (idle, keep-alive)
+    a.append(["nowexc", 6, 0.0])
     return a
 
 
